@@ -5,6 +5,7 @@ import generic_lints
 import c19_rules
 import predicates
 import dead_reads
+import derived
 
 
 def run(facts, tier):
@@ -14,6 +15,7 @@ def run(facts, tier):
         ("couplings", lambda fa: cowrite.obligations(fa, ['var_opt_sketch']), 2, "r_ and total_wt_r_ change together (reviewed exception: decrease_k_by_1 in pure reservoir mode keeps the total on purpose)"),
         ("reset completeness", lambda fa: c19_rules.reset_completeness(fa, ['var_opt_sketch', 'var_opt_union']), 10, "every field a mutator modifies is re-initialised by reset()"),
         ("emptiness predicate support", lambda fa: predicates.obligations(fa, ['var_opt_sketch']), 2, "is_empty keeps its reviewed support"),
+        ("rest state", derived.rest_state, 4, "the readers restore the transient M region as empty and the gap slot as raw memory"),
         ("reader dead-reads", lambda fa: [o for o in dead_reads.obligations(fa) if "var_opt" in o["key"]], 10, "every field the VarOpt readers take from the image reaches the restored sketch on every accepting path"),
         ("tautologies", lambda fa: generic_lints.tautologies(fa, ('sampling/',)), 2, "no comparison / assignment / min-max with two identical operands"),
         ("duplicate operands", lambda fa: generic_lints.duplicate_conjuncts(fa, ('sampling/',)), 2, "no logical chain tests the same operand twice"),
